@@ -339,10 +339,13 @@ def check(pid, tier):
         if r2["status"] != "ok":
             undecided.append("replay harness: " + r2.get("message", r2["status"]))
         else:
+            conf = r2.get("conformance") or {}
+            if conf.get("facts_failed"):
+                undecided.append("trusted layer: %d assumed fact(s) of specs/prelude.rs failed their conformance test: %s" % (conf["facts_failed"], ", ".join(conf.get("failed", [])[:5])))
             for c in r2["contracts"]:
                 for fl in c["failures"]:
                     ident = "%s:%s" % (c["name"], fl.get("class", ""))
-                    hit = next((k for k in kf.get("known", []) if k["property"] == pid and k["id"] == ident), None)
+                    hit = next((k for k in kf.get("known", []) if k["id"] == ident), None)
                     if hit is not None:
                         known_hits.append((hit, fl))
                     else:
